@@ -7,6 +7,7 @@ use crate::world::*;
 use crate::providers::KpBackend;
 use mls_rs::group::{CommitEffect, Node, ReceivedMessage};
 use mls_rs::MlsMessage;
+use mls_rs_core::crypto::CipherSuiteProvider as _;
 use serde_json::{json, Value};
 use std::collections::BTreeMap;
 
@@ -376,12 +377,21 @@ impl Replayer {
                 let kind = s(&args, "kind").to_string();
                 let kp = args.get("kp").and_then(|k| k.as_u64()).filter(|i| *i > 0).map(|i| self.w.kps[i as usize - 1].msg.clone());
                 let suite = self.w.suite;
+                let probe_new_sig = if kind == "upd" { self.w.cs(&p).signature_key_generate().ok() } else { None };
                 let party = self.w.parties.get_mut(&p).unwrap();
                 let g = party.group.as_mut().unwrap();
                 let before_refs: Vec<Vec<u8>> = g.get_cached_proposals().iter().map(|c| c.proposal_ref().as_slice().to_vec()).collect();
                 let r = match kind.as_str() {
                     "add" => g.propose_add(kp.unwrap(), vec![]),
                     "rem" => g.propose_remove(u(&args, "target") as u32, vec![]),
+                    // every third update also changes the member's signing key (same identity): the receivers'
+                    // identity provider accepts it as a valid successor, and the proposer switches signer only when
+                    // a commit carrying the update is accepted (F4)
+                    "upd" if u(&args, "prop") % 3 == 0 => {
+                        let (sk, pk) = probe_new_sig.clone().expect("new signature key");
+                        let id = mls_rs::identity::SigningIdentity::new(mls_rs::identity::basic::BasicCredential::new(p.as_bytes().to_vec()).into_credential(), pk);
+                        g.propose_update_with_identity(sk, id, vec![])
+                    }
                     "upd" => g.propose_update(vec![]),
                     "psk" => g.propose_external_psk(mls_rs::psk::ExternalPskId::new(s(&args, "id").as_bytes().to_vec()), vec![]),
                     "rpsk" => g.propose_resumption_psk(u(&args, "pe"), vec![]),
